@@ -66,7 +66,7 @@ def expected_items(st, L, keep):
     return exp
 
 
-def observed_items(src, keep, free=True, via_file=False):
+def observed_items(src, keep, free=True, via_file=False, omp=False):
     import fp
     if via_file:
         import os, shutil, tempfile
@@ -75,12 +75,12 @@ def observed_items(src, keep, free=True, via_file=False):
             pth = os.path.join(d, "prog.f90")
             with open(pth, "w", newline="") as fh:
                 fh.write(src)
-            rd = fp.FortranFileReader(pth, ignore_comments=not keep)
+            rd = fp.FortranFileReader(pth, ignore_comments=not keep, include_omp_conditional_lines=omp)
             rd.set_format(fp.FortranFormat(free, False))
             return _items_of(rd)
         finally:
             shutil.rmtree(d, ignore_errors=True)
-    rd = fp.reader(src, ignore_comments=not keep, free=free)
+    rd = fp.reader(src, ignore_comments=not keep, free=free, include_omp_conditional_lines=omp)
     return _items_of(rd)
 
 
@@ -120,8 +120,9 @@ def check_layout(arg):
         form = "free"
     if v % 2 == 0:
         # the reader's source kind must not matter: the same text through a file reader
-        a = observed_items(L.text(), keep, free=(form == "free"))
-        b = observed_items(L.text(), keep, free=(form == "free"), via_file=True)
+        omp = v % 4 == 0          # every reader option must reach the reader whatever its source is
+        a = observed_items(L.text(), keep, free=(form == "free"), omp=omp)
+        b = observed_items(L.text(), keep, free=(form == "free"), via_file=True, omp=omp)
         if a != b:
             i = next((j for j in range(min(len(a), len(b))) if a[j] != b[j]), min(len(a), len(b)))
             return [("file_reader_items_differ:" + form, "item %d: string reader %r file reader %r" % (i, a[i:i + 2], b[i:i + 2]),
